@@ -96,7 +96,7 @@ def medianOf (xs : List Val) : AV :=
 /-- stable sort of value counts by decreasing count (`Counter.most_common`) -/
 def insertC (x : Val × Nat) : List (Val × Nat) → List (Val × Nat)
   | [] => [x]
-  | y :: ys => if y.2 < x.2 then x :: y :: ys else y :: insertC x ys
+  | y :: ys => if y.2 ≤ x.2 then x :: y :: ys else y :: insertC x ys
 
 def mostCommon (cs : List (Val × Nat)) : List (Val × Nat) := cs.foldr insertC []
 
